@@ -293,7 +293,10 @@ def _run_job(ws, job, r, extra_defines, want_trace):
         if not unk:
             break
         cmd2 = cmd + [a for u in unk for a in ('--property', u)]
-        res2, out2 = _cbmc(cmd2, job, r)
+        try:
+            res2, out2 = _cbmc(cmd2, job, r)
+        except Infra:
+            break   # e.g. an obligation id that does not exist in the restricted run
         got = {x['property']: x for x in res2}
         progressed = False
         for i, x in enumerate(results):
